@@ -84,6 +84,25 @@ def first_too_deep(t, D):
     return None
 
 
+def huge_ok():
+    """can this machine reserve the address space of a 93-million-level stack (3 GiB + ASan shadow)?"""
+    try:
+        import resource, mmap
+        if resource.getrlimit(resource.RLIMIT_AS)[0] != resource.RLIM_INFINITY:
+            return False
+        avail = 0
+        for l in open("/proc/meminfo"):
+            if l.startswith("MemAvailable:"):
+                avail = int(l.split()[1]) * 1024
+        if avail < (6 << 30):
+            return False
+        m = mmap.mmap(-1, 3 << 30, flags=mmap.MAP_PRIVATE | mmap.MAP_ANONYMOUS | getattr(mmap, "MAP_NORESERVE", 0))
+        m.close()
+        return True
+    except Exception:
+        return False
+
+
 def gen(rng, tier):
     reps = 6 if tier == "quick" else 120
     out = []
@@ -118,6 +137,17 @@ def gen(rng, tier):
             t = nested(rng, n, b"1")
             meta = {"kind": "bigD-" + ("below" if first_too_deep(t, D) is None else "above"), "D": D, "text": t, "chunks": None, "flags": 0}
             out.append((line(D, 0, ["Z" + hx(t)]), meta))
+    # limits near the type limits of the level-stack allocation (D * sizeof(level) at and beyond 2^31): the
+    # stack must really have D levels and such a D must not be refused.  The stack is 32 bytes per level,
+    # allocated zeroed (untouched pages cost nothing); the harness caps one allocation at 3000 MB
+    # (ASAN_OPTIONS in lib/fw.py), so D stays below 93 750 000, and the cases are only generated where
+    # 3 GiB of address space can be reserved.
+    if huge_ok():
+        for D in ((1 << 26) + 3, 90000000) if tier == "quick" else ((1 << 26) + 3, (1 << 26), (1 << 26) - 1, 80000001, 90000000, 93000000):
+            for n in (3, 6) if tier == "quick" else (1, 2, 3, 4, 6, 9, 40):
+                t = nested(rng, n, rng.choice([b"1", b"[]", b"{}"]))
+                meta = {"kind": "hugeD-below", "D": D, "text": t, "chunks": None, "flags": 0}
+                out.append((line(D, 0, ["Z" + hx(t)]), meta))
     # the limit configured through the file-descriptor API: -1 = default (32), anything else < 1 is refused
     for dreq in (-1, 0, -2, -7, 1, 2, 3, 5, 33, 40):
         deff = 32 if dreq == -1 else dreq
